@@ -88,6 +88,7 @@ var clauseKeywords = map[string]bool{
 	"resolves": true, "trusted": true, "inline": true, "holds": true, "assert": true,
 	"decreases": true, "hint": true, "modular": true, "spawns": true, "noframe": true,
 	"safety": true, "trigger": true, "assumes": true, "defers": true, "invokes": true, "defines": true,
+	"stable": true,
 }
 
 var tagRe = regexp.MustCompile(`^\[([A-Z0-9, ]+)\]`)
@@ -352,7 +353,7 @@ func parseContractLines(lines []string, where []string, pkgPath string, file *as
 					}
 					cl.Exprs = append(cl.Exprs, e)
 				}
-			case "spawns", "modular", "noframe", "safety", "defers":
+			case "spawns", "modular", "noframe", "safety", "defers", "stable":
 			default:
 				e, err := ParseSpecExpr(cl.Text)
 				if err != nil {
